@@ -864,7 +864,8 @@ pub fn check_state(lib: &Lib, m: &Machine, want: &Value, op: Option<&Op>, f: &mu
             for key in ["reg", "nodes", "edges", "exports", "implicit"] {
                 if p[key] != want_c[key] {
                     f.push(Finding {
-                        class: "state",
+                        // the import listing (imports()) is part of the interface contract too
+                        class: if key == "implicit" { "listing" } else { "state" },
                         what: format!("{key}: real {} / spec {}", p[key], want_c[key]),
                         op: op.map(|o| o.to_json()),
                     });
